@@ -22,3 +22,29 @@ def arow_get_clone(c0, c1, x, **kw):
 
 arow_set_small = arow_set
 arow_insert_small = arow_insert
+
+
+def acell_clone(x, y, has_x, has_y, rep, edit_clone, **kw):
+    from odfdo import Cell, Row
+    c = Cell(5, repeated=rep if rep > 1 else None)
+    c.x = x if has_x else None
+    c.y = y if has_y else None
+    k = c.clone
+    notes = []
+    if (k.x, k.y) != (c.x, c.y):
+        notes.append(f"clone of cell at {(c.x, c.y)} has position {(k.x, k.y)}")
+    if k.serialize() != c.serialize():
+        notes.append("clone XML differs")
+    a, b = (k, c) if edit_clone else (c, k)
+    before = b.serialize()
+    a.set_value(7)
+    a.x = 9
+    if b.serialize() != before or b.x != (x if has_x else None):
+        notes.append("an edit of one twin is seen in the other")
+    row = Row()
+    row.append_cell(c, clone=False)
+    row.y = y if has_y else None
+    r2 = row.clone
+    if r2.y != row.y or r2.serialize() != row.serialize() or r2._rmap != row._rmap or r2._rmap is row._rmap:
+        notes.append(f"row clone: y {r2.y} vs {row.y}, maps {r2._rmap} vs {row._rmap}")
+    return bool(notes), "; ".join(notes) or "ok"
